@@ -170,7 +170,8 @@ FnO(f, args, item, names, values) ==
          ELSE IF A(1).st = "err" \/ A(2).st = "err" THEN {"E"}
          ELSE IF A(2).st = "soft" THEN Lenient
          ELSE IF A(2).st = "ok" /\ A(2).lit /\ A(2).v.t \notin {"S","B"} THEN (IF A(1).st = "missing" THEN Lenient ELSE {"E"})
-         ELSE IF A(1).st = "missing" \/ A(2).st = "missing" THEN {"F"}
+         ELSE IF A(1).st = "missing" THEN {"F"}
+         ELSE IF A(2).st = "missing" THEN Lenient       \* the operand (not the attribute looked at) is absent: false or an error
          ELSE IF A(1).v.t = A(2).v.t /\ A(1).v.t \in {"S","B"} THEN B2O(IsPrefixB(Pay(A(2).v), Pay(A(1).v)))
          ELSE Lenient
     [] f = "contains" ->
@@ -178,7 +179,8 @@ FnO(f, args, item, names, values) ==
          ELSE IF args[1].k # "path" THEN AnyO
          ELSE IF A(1).st = "err" \/ A(2).st = "err" THEN {"E"}
          ELSE IF A(2).st = "soft" THEN Lenient
-         ELSE IF A(1).st = "missing" \/ A(2).st = "missing" THEN {"F"}
+         ELSE IF A(1).st = "missing" THEN {"F"}
+         ELSE IF A(2).st = "missing" THEN Lenient
          ELSE ContainsRule(A(1).v, A(2).v)
     [] OTHER -> {"E"}
 
